@@ -126,3 +126,30 @@ pub fn repetition_shapes() -> Vec<String> {
     }
     v
 }
+
+/// Branch patterns `prefix body` for the "branching" family: two branches that agree for a while
+/// and differ one or more steps ahead (loops over different strings, optional tails, nested
+/// alternatives). Minimizer and construction shortcuts live in such shapes.
+pub fn branch_patterns() -> Vec<String> {
+    let strs = ["x", "y", "z", "xy", "xz", "yx"];
+    let mut bodies: Vec<String> = vec![];
+    for s in strs {
+        bodies.push(s.to_string());
+        bodies.push(format!("({s})*"));
+        bodies.push(format!("({s})+"));
+        for t in strs {
+            if s != t {
+                bodies.push(format!("({s}|{t})"));
+                bodies.push(format!("({s}|{t})*"));
+            }
+            bodies.push(format!("({s})*{t}"));
+        }
+    }
+    let mut v = vec![];
+    for p in ["a", "b"] {
+        for b in &bodies {
+            v.push(format!("{p}{b}"));
+        }
+    }
+    v
+}
